@@ -218,6 +218,15 @@ def run_case(case):
                 sigs.add((T, C, meta[i][0], r["peak_time_idx"], case["cls"]))
         idx_cols = COLS_IDX + ["half_peak_post_time_idx", "half_peak_pre_time_idx"]
         val_cols = COLS_VAL + ["half_peak_post_val", "half_peak_pre_val"]
+        # ---- the peak-channel traces returned on request are the input's columns at the reported peak channel; the table is the same
+        try:
+            dfp, pk = W.compute_spike_features(arr.copy(), fs=fs, recovery_duration_ms=ms, return_peak_channel=True)
+            ok = pk.shape == (N, T) and all(np.array_equal(pk[i], arr[i, :, int(df["peak_trace_idx"].iloc[i])], equal_nan=True) for i in range(N))
+            ok &= all(np.array_equal(dfp[c].to_numpy(), df[c].to_numpy(), equal_nan=True) for c in df.columns)
+            res.check(ok, "features:peak-channel-traces", f"{label0}: return_peak_channel=True: traces are not the peak-channel columns of the input, or the table differs",
+                      counter="peak_channel_traces_checked")
+        except Exception as ex:
+            res.exception(key_exc, ex, f"{label0} return_peak_channel=True")
         # ---- scaling by 2^k: values scale, indices stay
         e = int(rng.integers(-8, 9))
         try:
